@@ -186,7 +186,16 @@ class Printer:
 
     def attach(self, lines: List[str], comment: str, depth: int, can_trail: bool, can_above: bool = True,
                trail_line: int = -1) -> List[str]:
-        """write the comment an element is declared with: directly above it, or trailing its line"""
+        """write the comment an element is declared with: directly above it, or trailing its line.
+        \x04 marks the top-most line of an element that CAPTURES a comment block written above it"""
+        res = self._attach(lines, comment, depth, can_trail, can_above, trail_line)
+        if can_above and res:
+            k = len(res) - len(lines) + 1          # the comment lines written above, and the element's own first line
+            res = ['\x04' + ln for ln in res[:k]] + list(res[k:])
+        return res
+
+    def _attach(self, lines: List[str], comment: str, depth: int, can_trail: bool, can_above: bool = True,
+                trail_line: int = -1) -> List[str]:
         if not comment:
             return lines
         one = '\n' not in dec(comment)
@@ -444,12 +453,23 @@ class Printer:
 
     def document(self, doc: List[Dict[str, Any]], noise: Optional[List[Any]] = None) -> str:
         out = self.lines(doc)
+        # exact = every inserted comment stands where NO element captures it (not above a capturing element, not on an element's
+        # line): such comments must leave the whole model, comment attributes included, exactly as it is
+        self.exact = bool(noise)
         for kind, pos, text in sorted(noise or [], key=lambda n: -n[1]):
             # extra comments (C14 inertness): on a line of their own before line `pos`, or trailing line `pos`
             pos = pos % (len(out) + 1)
+            if kind != 'own':
+                self.exact = False
             if kind == 'own':
-                if pos < len(out) and out[pos].startswith('\x02'):
+                if pos < len(out) and out[pos].lstrip('\x04').startswith('\x02'):
                     continue
+                j = pos
+                while j < len(out) and '\x04' not in out[j] and (out[j].strip('\x01\x02\x03 \t') == '' or out[j].lstrip('\x04\x02 \t').startswith(('//', '/*'))
+                                                                or out[j].lstrip('\x04').startswith('\x02')):
+                    j += 1
+                if j < len(out) and '\x04' in out[j]:
+                    self.exact = False
                 parts = text.split('\n')
                 cont = '\x02' if text.startswith('/*') else ''
                 out[pos:pos] = [parts[0]] + [cont + ln for ln in parts[1:]]
@@ -459,10 +479,10 @@ class Printer:
                     marks = [i for i, ch in enumerate(out[pos]) if ch == '\x03']
                     k = marks[(len(text) + pos) % len(marks)]
                     out[pos] = out[pos][:k] + ' ' + text + ' ' + out[pos][k + 1:]      # (every marked place takes ONE comment: some slots admit no more)
-            elif pos < len(out) and out[pos].strip() and not out[pos].endswith('\x01') and not out[pos].startswith('\x02') \
-                    and not out[pos].lstrip('\x02').lstrip().startswith(('//', '/*')) and not out[pos].endswith('*/'):
+            elif pos < len(out) and out[pos].strip() and not out[pos].endswith('\x01') and not out[pos].lstrip('\x04').startswith('\x02') \
+                    and not out[pos].lstrip('\x04\x02').lstrip().startswith(('//', '/*')) and not out[pos].endswith('*/'):
                 out[pos] += ' ' + (text if '\n' not in text else text.split('\n')[0] + (' */' if text.startswith('/*') else '')) + '\x01'
-        out = [ln.replace('\x01', '').replace('\x02', '').replace('\x03', '') for ln in out]
+        out = [ln.replace('\x01', '').replace('\x02', '').replace('\x03', '').replace('\x04', '') for ln in out]
         text = self.eol.join(out)
         if self.f.pick('final_nl'):
             text += self.eol
@@ -472,3 +492,9 @@ class Printer:
 def print_doc(doc: List[Dict[str, Any]], seed: Optional[int] = None, pinned: Optional[Dict[str, Any]] = None,
               noise: Optional[List[Any]] = None) -> str:
     return Printer(Form(seed, pinned)).document(doc, noise)
+
+
+def print_doc_ex(doc, seed=None, pinned=None, noise=None):
+    """-> (text, exact): exact = the inserted comments all stand where no element captures them"""
+    p = Printer(Form(seed, pinned))
+    return p.document(doc, noise), bool(getattr(p, 'exact', False))
